@@ -639,8 +639,8 @@ def extract(line, out_line, secrets, collapse_ws):
     for s in line["segs"]:
         if s[0] == "lit":
             if collapse_ws:
-                parts = re.split(r"([ \t\x0b\x0c]+)", s[1])
-                rx += "".join(r"[ \t\x0b\x0c]+" if (i % 2) else re.escape(x) for i, x in enumerate(parts))
+                parts = re.split(r"(\s+)", s[1])
+                rx += "".join(r"\s+" if (i % 2) else re.escape(x) for i, x in enumerate(parts))
             else:
                 rx += re.escape(s[1])
         elif s[0] == "bad":
